@@ -172,6 +172,30 @@ pub fn default_handshake() -> Vec<u8> {
     frame(1, &handshake41(caps, 1 << 24, 0x21, b"u", &[0])).0
 }
 
+/// Handshake responses of differently-minded clients, all for user "u" with sequence id 1.
+/// None of them negotiates anything that would change the layout of later packets (no
+/// compression, no DEPRECATE_EOF, no session tracking, no query attributes), so a server must
+/// answer all of them with the same 4.1 packets.
+pub const N_HANDSHAKE_VARIANTS: u64 = 4;
+pub fn handshake_variant(k: u64) -> (Vec<u8>, &'static str) {
+    match k % N_HANDSHAKE_VARIANTS {
+        0 => (default_handshake(), "HandshakeResponse41, usual capabilities"),
+        1 => (frame(1, &handshake320(0x0005, 1 << 24, b"u", b"")).0, "HandshakeResponse320 (pre-4.1 layout)"),
+        2 => (frame(1, &handshake41(CAP_PROTOCOL_41, 1 << 24, 0x21, b"u", &[0])).0, "HandshakeResponse41 with CLIENT_PROTOCOL_41 only"),
+        _ => {
+            // what libmysqlclient sends: db, plugin name and connection attributes present
+            let caps = 0x0001 | 0x0002 | 0x0004 | CAP_CONNECT_WITH_DB | 0x0080 | 0x0100 | CAP_PROTOCOL_41 | 0x0400 | 0x1000 | 0x2000 | CAP_SECURE_CONNECTION | 0x0001_0000 | 0x0002_0000 | 0x0004_0000 | CAP_PLUGIN_AUTH | 0x0010_0000 | 0x0020_0000;
+            let mut t = vec![20u8];
+            t.extend((0..20u8).map(|i| 0xa0 + i));
+            t.extend_from_slice(b"db\0mysql_native_password\0");
+            let attrs = b"\x0c_client_name\x08libmysql\x04_pid\x0242";
+            t.push(attrs.len() as u8);
+            t.extend_from_slice(attrs);
+            (frame(1, &handshake41(caps, 1 << 24, 0x2d, b"u", &t)).0, "HandshakeResponse41 as libmysqlclient sends it (db, plugin, attributes)")
+        }
+    }
+}
+
 // ---------------------------------------------------------------- decoder: framing
 
 #[derive(Clone, Copy, Debug)]
